@@ -1,6 +1,6 @@
 from common import TB_COMMON
 CONFIG = dict(
-    gens=["router"], props_module="RepeVerif.Props.C07", namespace="Repe.C07", exes=["repe_model_router"], leanchecker=True,
+    gens=["router", "dispatch"], props_module="RepeVerif.Props.C07", namespace="Repe.C07", exes=["repe_model_router"], leanchecker=True,
     death_is_violation=False,
     runs=[dict(name="router", bin="fam_router", args=[], exe="repe_model_router", profile="dev")],
     trusted_base=TB_COMMON + [
